@@ -235,6 +235,8 @@ def _decode_outcome(ctx, io, key, cc, want, old, label, errors):
             raise
         ctx.fail("reader-raised-unrelated-exception-on-leftover-file", detail=f"{label}: {type(exc).__name__}: {exc}")
         return
+    if not isinstance(got, SArray):
+        got = SArray.from_concrete(got)          # decoded from concrete leftover bytes
     conds_new = z3.And([V.eq_elems(a, b) for a, b in zip(got.a.ravel(), want.a.ravel())]) if got.shape == want.shape else z3.BoolVal(False)
     if old is not None and got.shape == old.shape:
         conds_old = z3.And([V.eq_elems(a, b) for a, b in zip(got.a.ravel(), old.a.ravel())])
@@ -272,10 +274,12 @@ def H_crash_file(ctx, cfg):
     case = [n, None]
     ctx.input("interruption", case)
     env.fs.crash_at = env.fs.calls + n
+    log0 = len(env.fs.log)
     try:
         io.write_chunk(new, "full", cc)
     except Crash:
-        pass
+        st = env.fs.log[log0 + n]         # (the with-statement still closes the file while the interruption unwinds)
+        case.append([st[0], sum(1 for x in env.fs.log[log0:log0 + n] if x[0] == st[0])])     # interrupted before this call
     env.fs.crash_at = None
     env.fs.crash_cleanup(ctx)
     case[1] = {p: (len(d) if not isinstance(d, GzBlob) else ("gz", len(d.payload), d.complete)) for p, d in env.fs.files.items() if "/full/" in p}
@@ -472,26 +476,95 @@ def replay(cfg, cex):
         pio = load.mod("precomputed_io")
         info = V.make_info(dtype, 1, (2, 2, 1), (2, 2, 1), enc, (2, 2, 1))
         oldv, newv = inp["voxels"]
-        n, files = inp["interruption"]
+        n, files = inp["interruption"][:2]
         with tempfile.TemporaryDirectory() as td:
             acc = acc_mod.get_accessor_for_url(td, dict(gzip=cfg["gzip"], flat=True))
             io = pio.get_IO_for_new_dataset(info, acc)
             cc = (0, 2, 0, 2, 0, 1)
             new = real_np.array(newv, dtype=dtype).reshape(1, 1, 2, 2)
             old = real_np.array(oldv, dtype=dtype).reshape(1, 1, 2, 2) if oldv else None
-            io.write_chunk(new, "full", cc)
-            # truncate the real file to the surviving prefix reported by the model
+            if old is not None:
+                io.write_chunk(old, "full", cc)
+            site = inp["interruption"][2] if len(inp["interruption"]) > 2 else None
+
+            class Kill(BaseException):
+                pass
+            import pathlib
+            import unittest.mock as um
+            counters = {}
+
+            def hit(kind):
+                i = counters.get(kind, 0)
+                counters[kind] = i + 1
+                return site is not None and kind == site[0] and i == site[1]
+
+            class FP:
+                def __init__(self, f, prefix):
+                    self._f, self._p = f, prefix
+
+                def write(self, b):
+                    if hit(self._p + "write"):
+                        raise Kill()
+                    return self._f.write(b)
+
+                def fileno(self):
+                    return self._f.fileno()
+
+                def close(self):
+                    if hit(self._p + "close"):
+                        raise Kill()
+                    self._f.close()
+
+                def __enter__(self):
+                    return self
+
+                def __exit__(self, *a):
+                    if a[0] is None:
+                        self.close()
+                    return False
+            real_open, real_gzopen, real_makedirs = pathlib.Path.open, fa.gzip.open, fa.os.makedirs
+
+            def p_open(self_, mode="r", *a, **k):
+                if hit("open:" + mode):
+                    raise Kill()
+                return FP(real_open(self_, mode, buffering=0) if "b" in mode else real_open(self_, mode), "")
+
+            def g_open(path, mode="rb", *a, **k):
+                if hit("gzopen:" + mode):
+                    raise Kill()
+                return FP(real_gzopen(path, mode, *a, **k), "gz")
+
+            def p_makedirs(*a, **k):
+                if hit("makedirs"):
+                    raise Kill()
+                return real_makedirs(*a, **k)
+            real_falloc = getattr(os, "posix_fallocate", None)
+
+            def p_falloc(*a):
+                if hit("fallocate"):
+                    raise Kill()
+                return real_falloc(*a)
+            patches = [um.patch.object(fa.os, "makedirs", p_makedirs), um.patch.object(pathlib.Path, "open", p_open),
+                       um.patch.object(fa.gzip, "open", g_open)]
+            if real_falloc:
+                patches.append(um.patch.object(os, "posix_fallocate", p_falloc))
+            for p_ in patches:
+                p_.start()
+            try:
+                try:
+                    io.write_chunk(new, "full", cc)
+                except Kill:
+                    pass
+            finally:
+                for p_ in patches:
+                    p_.stop()
+            # the model lets any prefix of what was written survive: cut the real files down to that prefix
             for p, ln in (files or {}).items():
                 name = os.path.join(td, "full", os.path.basename(p))
-                if not os.path.exists(name):
+                if not os.path.exists(name) or isinstance(ln, list):
                     continue
-                if isinstance(ln, list):      # gzip image: (tag, payload bytes kept, complete)
-                    if ln[2]:
-                        continue
-                    data = open(name, "rb").read()
-                    open(name, "wb").write(data[:max(10, len(data) - 9)])
-                else:
-                    data = open(name, "rb").read()
+                data = open(name, "rb").read()
+                if len(data) > ln:
                     open(name, "wb").write(data[:ln])
             r = pio.get_IO_for_existing_dataset(acc_mod.get_accessor_for_url(td, dict(gzip=cfg["gzip"], flat=True)))
             try:
